@@ -187,7 +187,7 @@ def run(tier, seed):
                     'violations': len(res['violations'])})
         for v in res['violations']:
             ctx.verdict('sat')
-            sig = f"dataflow:{v['set']}{':' + v['class'] if v.get('class') else ''}:{v['node_type']}:{res['case']}:{v['variable']}"
+            sig = f"dataflow:{v['set']}{':' + v['class'] if v.get('class') else ''}:{v['node_type']}:{res['case'].replace('~case', '')}:{v['variable'].lower()}"
             ctx.candidate(sig, f"{res['case']}: node {v['node']} executes a {'write of' if 'defines' in v['set'] else 'read of' if 'uses' in v['set'] else 'with live'} "
                           f"'{v['variable']}' on input {dict(list(v['model'].items())[:6])} but it is missing from {v['set']}",
                           {'case': res['case'], 'sizes': res['sizes'], **v})
